@@ -6,7 +6,7 @@ One prompt per property goes to <outdir>/Cxx_r<round>.txt.  A prompt contains th
 already exist for it (seeded/SUMMARY.json) - nothing else from /verif.  The sub-agent works in its
 own scratch worktree /tmp/wt-Cxx of /repo.
 
-usage: tools/gen_seed_prompts.py <round> <first-number> <outdir>
+usage: tools/gen_seed_prompts.py <round> <first-number> <outdir> [local]
 """
 import json
 import os
@@ -44,15 +44,25 @@ Verify all of that yourself: for each change apply it, run the whole test-suite,
 
 ADDITIONAL CONSTRAINTS FOR THIS ROUND: {n} such changes already exist for this property; do NOT repeat their mechanisms or code sites:
 {existing}
-Find something of a genuinely different nature. This round is about what a fixed list of inputs does not reach. Prefer, where the property gives room for it:
-  - a SCHEDULE: two threads / tasks / re-entrant calls using the same object (shared module- or class-level state, lazily built caches, check-then-act sequences, a lock dropped or narrowed);
-  - a FAULT: a user-supplied stream, iterator, callback, converter or file that raises or returns short half-way, and what the code leaves behind afterwards (state not rolled back, resource closed twice or never, an error swallowed or turned into a different one);
-  - a HISTORY: behaviour that differs on the second or N-th call, after an object was reused, copied, pickled, re-bound, cleared, or after configuration was changed between two calls;
-  - a CONFIGURATION COMBINATION: two options, subclass hooks or parameters that are each fine alone.
+{emphasis}
 Subtle is better than blatant, but each change must be demonstrably wrong with respect to the property as stated (stay inside what the statement and its quantifier cover), and must still pass the whole existing test-suite. Number your two changes {a} and {b}: deliver them in {wt}/_out/{a}/ and {wt}/_out/{b}/ (same three files each)."""
 
 
-def main(rnd, first, outdir):
+EMPHASIS_DEEP = """Find something of a genuinely different nature. This round is about what a fixed list of inputs does not reach. Prefer, where the property gives room for it:
+  - a SCHEDULE: two threads / tasks / re-entrant calls using the same object (shared module- or class-level state, lazily built caches, check-then-act sequences, a lock dropped or narrowed);
+  - a FAULT: a user-supplied stream, iterator, callback, converter or file that raises or returns short half-way, and what the code leaves behind afterwards (state not rolled back, resource closed twice or never, an error swallowed or turned into a different one);
+  - a HISTORY: behaviour that differs on the second or N-th call, after an object was reused, copied, pickled, re-bound, cleared, or after configuration was changed between two calls;
+  - a CONFIGURATION COMBINATION: two options, subclass hooks or parameters that are each fine alone."""
+
+EMPHASIS_LOCAL = """Find something of a genuinely different nature, at a code site none of them touches. This round is about SMALL, LOCAL edits: one to five changed lines inside the functions the anchors name (or helpers they call) - the kind of slip a routine maintenance commit makes:
+  - a comparison or boundary off by one (`<` / `<=`, `>` / `>=`, a slice bound, a length check), a wrong default, an inverted or dropped condition, a branch merged with its neighbour;
+  - a normalisation step dropped, applied twice or applied in the wrong order (case folding, quoting / unquoting, stripping, encoding, sorting);
+  - the wrong variable of two similar ones, a stale value used after an update, an early return that skips a later step, an exception type widened or narrowed;
+  - a regular expression, character class or constant table that lost or gained a member.
+Read the anchored code first and pick sites whose behaviour the existing tests do not pin down. The violating inputs may be unusual, but they must lie inside what the statement and its quantifier cover."""
+
+
+def main(rnd, first, outdir, emphasis=EMPHASIS_DEEP):
     os.makedirs(outdir, exist_ok=True)
     summary = json.load(open(os.path.join(ROOT, "seeded", "SUMMARY.json")))
     for line in open(os.path.join(ROOT, "properties.jsonl")):
@@ -60,11 +70,11 @@ def main(rnd, first, outdir):
         pid = p["id"]
         ex = [f"  - {v[0]} (manifests with: {v[1]})" for k, v in sorted(summary.items()) if k.startswith(pid + "-")]
         text = TEMPLATE.format(wt=f"/tmp/wt-{pid}", pid=pid, title=p["title"], statement=p["statement"], quant=p["quantifier"]["text"],
-                               anchors=", ".join(p["anchors"]["files"]), a=first, b=first + 1, n=len(ex), existing="\n".join(ex))
+                               anchors=", ".join(p["anchors"]["files"]), a=first, b=first + 1, n=len(ex), existing="\n".join(ex), emphasis=emphasis)
         with open(os.path.join(outdir, f"{pid}_r{rnd}.txt"), "w") as f:
             f.write(text)
     print("written to", outdir)
 
 
 if __name__ == "__main__":
-    main(int(sys.argv[1]), int(sys.argv[2]), sys.argv[3])
+    main(int(sys.argv[1]), int(sys.argv[2]), sys.argv[3], EMPHASIS_LOCAL if len(sys.argv) > 4 and sys.argv[4] == "local" else EMPHASIS_DEEP)
